@@ -90,6 +90,21 @@ example : PMT_WF { PMT.fresh with
     simp only [List.mem_cons, List.not_mem_nil, or_false] at hx
     rcases hx with rfl | rfl <;> exact ⟨by decide, by decide, by decide⟩
 
+/-- why `PMT_detects_flip_partial` says "not True" rather than "False" for the descriptor / stream
+    bytes: a one-bit change of a descriptor LENGTH byte (3 → 2, packet offset 18) mis-frames the
+    descriptor loop, which ends on a single left-over byte: `struct.error`, not False.  The same change
+    of the descriptor's tag byte (offset 17) gives False. -/
+def pmtFlipExample : PMT :=
+  { PMT.fresh with pkt := { Pkt.fresh with pid := 0x100, adaption_ctrl := 1 }, tableid := 2, program_number := 1,
+                   descriptor_tags := [{ tag := some 5, data := [1, 2, 3] }] }
+
+example : (match (PMT.pack pmtFlipExample).2 with
+    | .ok b => (match (PMT.unpack PMT.fresh b).2, (PMT.unpack PMT.fresh (b.set 18 2)).2,
+                      (PMT.unpack PMT.fresh (b.set 17 4)).2 with
+                | .ok true, .error .struct, .ok false => b.length == 188 && b.getD 17 0 == 5 && b.getD 18 0 == 3
+                | _, _, _ => false)
+    | .error _ => false) = true := by decide +kernel
+
 /-! STANAG 4609: an exactly filled packet (the decoder handles no other, notes E3) carries the 36
     metadata bytes in its last 36 bytes: `pesdata[5:-2]` is bytes 157..185 of the packet, the stored
     checksum bytes 186..187. -/
